@@ -245,6 +245,8 @@ def _make_sur(spec):
         kw = {'nugget': 0.0, 'eval_rmse': spec.get('eval_rmse', False)}
         if spec.get('lapack_driver'):
             kw['lapack_driver'] = spec['lapack_driver']
+        if spec.get('cache_file'):
+            kw['training_cache'] = spec['cache_file']
         return KrigingSurrogate(**kw), {}
     ctor = {'interpolant_type': t}
     call = {}
@@ -264,6 +266,8 @@ def _make_sur(spec):
 
 
 def _scls(spec):
+    if spec.get('pre'):
+        return _scls({k: v for k, v in spec.items() if k != 'pre'}) + ':after_%s' % spec['pre']
     t = spec['type']
     if t == 'rbf':
         return 'rbf:family%s' % spec.get('rbf_family', 'default')
@@ -316,7 +320,24 @@ def check_sur(acc, n, kind, spec, tab, nout, pal, case_base):
     try:
         with _quiet(), warnings.catch_warnings():
             warnings.simplefilter('ignore')
-            s, call = _make_sur(spec)
+            pre = spec.get('pre')
+            if pre:
+                # an earlier training on the same inputs with other outputs must leave no trace:
+                # 'same_obj' retrains the same object, 'cache' (Kriging) trains another instance
+                # that writes the training cache file this one is given
+                Y0 = table(X, 'smooth' if tab == 'rough' else 'rough', nout, pal + 1) * 1.5 + 0.75
+                if pre == 'cache':
+                    import os
+                    spec = dict(spec, cache_file='c28_%d_%d.npz' % (os.getpid(), acc.evals))
+                    if os.path.exists(spec['cache_file']):
+                        os.remove(spec['cache_file'])
+                    s0, _ = _make_sur(spec)
+                    s0.train(X.copy(), Y0.copy())
+                s, call = _make_sur(spec)
+                if pre == 'same_obj':
+                    s.train(X.copy(), Y0.copy())
+            else:
+                s, call = _make_sur(spec)
             s.train(X.copy(), Y.copy())
             p0 = _predict(s, call, X[0])
     except Exception as exc:
@@ -495,6 +516,10 @@ def _sur_specs(tier):
     for rm in (False, True):
         for drv in (None, 'gesdd', 'gesvd'):
             out.append({'type': 'kriging', 'eval_rmse': rm, 'lapack_driver': drv})
+    # training histories: the same inputs trained before with other outputs
+    out += [{'type': 'linear', 'pre': 'same_obj'}, {'type': 'weighted', 'pre': 'same_obj'},
+            {'type': 'rbf', 'pre': 'same_obj'}, {'type': 'kriging', 'pre': 'same_obj'},
+            {'type': 'kriging', 'pre': 'cache'}, {'type': 'kriging', 'pre': 'cache', 'eval_rmse': True}]
     return out
 
 
